@@ -246,6 +246,13 @@ def observe (env : Env) (before : Nat) (w : World) : String :=
 def parseAction (env : Env) : Sexp → Option (Nat → Prog)
   | .atom "unsub" => some fun self => .userUnsub self .done
   | .list [.atom "unsub", s] => s.asNat.map fun s => fun _ => .userUnsub s .done
+  | .list [.atom "sub", p] => do
+      -- re-entrant arrival: a new subscriber without reactions subscribes from inside the callback
+      let o ← parsePipe env p
+      some fun _ => .obsvNew o fun id => .userSub id
+        (fun _ _ ev => match ev with
+          | .next (.obs cid) => .userSub cid (fun _ _ _ => .done) .done
+          | _ => .done) .done
   | .list [.atom "rnext", .atom name, v] => do
       let d ← parseData v
       match env.find name with
@@ -370,6 +377,9 @@ def stepProg (env : Env) (w : World) : Sexp → Option (World × Env × Prog)
       let (w, id) := w.allocObsv o
       some (w, env, .userSub id r .done)
   | .list [.atom "unsub", s] => do some (w, env, .userUnsub (← s.asNat) .done)
+  -- `utils::Using` is a guard whose drop (at scope end, or while a panic unwinds) calls `unsubscribe`
+  | .list [.atom "unsub", s, .atom "using"] => do some (w, env, .userUnsub (← s.asNat) .done)
+  | .list [.atom "unsub", s, .atom "unwind"] => do some (w, env, .userUnsub (← s.asNat) .done)
   | .list [.atom "connect", .atom name] =>
       match env.find name with
       | some (.publish srcId sj _ conns) =>
